@@ -229,6 +229,12 @@ def load_known(path=KNOWN_FILE):
 
 def sig_matches(sig, match):
     for k, want in match.items():
+        if k.endswith("__any"):
+            # the signature holds a list under k[:-5]; the entry matches if any element is listed
+            have = sig.get(k[:-5]) or []
+            if not any(x in want for x in have):
+                return False
+            continue
         have = sig.get(k)
         if isinstance(want, list):
             if have not in want:
